@@ -282,6 +282,12 @@ def bounded(rep, tier):
             continue
         if got != want:
             rep.add_bounded(Bounded(cid, False, sql, f'pushed text `{pushed}` returns {got}'[:250], f'{want}', bound='13 queries'))
+    try:
+        for sql, msg in plans.reuse_history_problems():
+            rep.add_bounded(Bounded('C11.bounded.planner-reuse', False, sql, msg, 'the plan of the statement planned alone', bound='re-use sequences'))
+            break
+    except Exception as e:
+        pass
     rep.bounded_evals = n
     rep.bounded_rule = 'single-integration queries (plain, joins, sub-queries, union, CTE, grouping, window, alias/column names shadowing the integration name): original text vs FetchDataframeStep.query executed on sqlite3 (integration attached as schema int1)'
 
